@@ -44,7 +44,7 @@ def run(tier, replay=None):
     out.add_tlc(r2)
     texts = [c["text"] for c in r1.tagged("CASE")] + [c["text"] for c in r2.tagged("CASE") if c["shape"] in ("forced", "data")]
     import absprog
-    texts += list(corpus.all_programs().values()) + corpus.VALUE_PROGRAMS + CSR_PROGRAMS
+    texts += list(corpus.all_programs().values()) + corpus.VALUE_PROGRAMS + CSR_PROGRAMS + corpus.SHARED_PROGRAMS
     texts += [absprog.render(p) for p in absprog.PROGRAMS.values()]
     texts = list(dict.fromkeys(texts))
     if replay:
@@ -59,6 +59,12 @@ def run(tier, replay=None):
             g = proj_groups(e)
             bydump.setdefault(e["yaml"], []).append((e["id"], g))
             trace.append({"ev": "obs", "id": e["id"], "cfgok": True, "yaml_rt": e["yaml_rt"]})
+            # faithfulness: the dump, read back by a generic YAML reader, against the structure it was written from
+            # (the dump numbers nodes from 0, the projection from 1)
+            mem = [{"nexts": [x - 1 for x in n["nexts"]], "prevs": [x - 1 for x in n["prevs"]], "live_in": n["live_in"],
+                    "live_out": n["live_out"], "u_def": n["udef"], "fpairs": [[a - 1, b - 1] for a, b in n["fpairs"]]}
+                   for n in e["cfg"]["nodes"]]
+            trace.append({"ev": "faithful", "id": e["id"], "dump": e.get("ydata", []), "mem": mem})
         elif e["ev"] == "yamlval":
             trace.append(e)
         else:
